@@ -109,6 +109,19 @@ def e2_replay(v, m):
     return concrete_outcome(v, m) in ("return", "raise:ValidationError")
 
 
+NAME_POOL = ["", "\x00", "\x01", "\x7f", "\x85", "\ue000", "\uffff", "\u0378", "\ud800", "a\x00b", " ", "\t", "\xa0", "\U0001d518", "\U0010ffff", "$", "-", "_", "1", "\u00b2", "class", "__dict__", "a b", "\u2028", "\u200d"]
+
+
+def parse_ok(S):
+    from vf.common import parse_element, jcopy
+
+    try:
+        parse_element(jcopy(S))
+        return True
+    except Exception:  # noqa
+        return False
+
+
 def e2_replay_number(v):
     from vf.e2 import number_construct_concrete
 
@@ -198,6 +211,12 @@ def harnesses(ctx) -> List[H]:
         hs.append(mk(f"c10_parse_{name}", hargs, pre, f"return parse_total({S}) and doc_total({S})", timeout=400, group="parse",
                      tier="thorough" if name in ("names", "autotitle", "untyped_names", "title_only", "ignored_keywords", "object_in_positions") else "quick",
                      expect="unknown" if name in ("names", "autotitle", "untyped_names", "object_in_positions", "title_only", "ignored_keywords") else "confirmed", covers=S))
+    hs.append(mk("c10_parse_name_pool", "i: int, typed: bool", [f"0 <= i < {len(NAME_POOL)}"],
+                 'a, b = NAME_POOL[i], NAME_POOL[(7 * i + 3) % len(NAME_POOL)]\nS = {"properties": {a: {"type": "integer"}, b: True}, "required": [b, a + b], "dependencies": {a: [b]}, "default": {a: b}, "enum": [{a: [b]}]}\nif typed: S.update({"type": "object", "title": "T" + a})\nreturn parse_total(S) and doc_total(S) and total(parse_s(S) if parse_ok(S) else parse_s(True), {a: 1, b: a})',
+                 timeout=300, group="parse", covers="property / required / dependency names from a pool of unusual strings (unnamed code points, controls, private use, surrogates, non-BMP, empty)"))
+    hs.append(mk("c10_parse_any_char_name", "s: str, typed: bool", ["len(s) == 1"],
+                 'S = {"properties": {s: {"type": "integer"}}, "required": [s, "x" + s]}\nif typed: S.update({"type": "object", "title": "T"})\nreturn parse_total(S)',
+                 timeout=120, group="parse", expect="unknown", covers="any single code point as property name (symbols are realised one per path: cannot exhaust, can refute)"))
     hs.append(mk("c10_parse__reach_error", "s: str", ["len(s) <= 1"], 'return parse_total({"type": "object", "title": s}) and len(s) > 0', kind="witness", timeout=30))
     return hs
 
